@@ -14,7 +14,7 @@ RULE = ('closed paths of 3..6 segments mixing lines, quadratics and cubics: rand
         'generic, level with an on-curve node, within 1e-8..2e-7 edge heights of a node level, level with a horizontal edge, level with a curve\'s '
         'y-extreme, level with a crossing of two straight edges, outside the bounding box (level with the path or not); reference = even-odd count '
         'on the dense flattening with the half-open rule, exact bounding box from the exact critical points; non-trivial = query inside the padded box')
-NOT_PROVED = ['even-odd for paths with curved segments: PROVED (Proofs/C11curves.v) under the bundled general-position hypothesis mixed_query (closed chain; level off every node ordinate, every crossing simple; C05 non-degeneracy per curved segment; crossings clear of the 2e-7 windows, pairwise distinct and INSIDE the computed box -- for curves the last item is a real hypothesis, C02 encloses only up to its sliver term): pointIsInside = parity of the crossings left of the point = parity of those right of it, windingNumberOfPoint = |signed count|; tangential contacts, levels through nodes and coincident crossings remain outside (recorded findings)',
+NOT_PROVED = ['even-odd for paths with curved segments: PROVED (Proofs/C11curves.v) under the bundled general-position hypothesis mixed_query (closed chain; level off every node ordinate, every crossing simple; C05 non-degeneracy per curved segment; crossings clear of the 2e-7 windows and pairwise distinct; every curved segment narrower than ~16 000 units, Proofs/C11box.v: the rays start 10 units outside a box that C02 shows to enclose the curve up to 0.06% of its extent): pointIsInside = parity of the crossings left of the point = parity of those right of it, windingNumberOfPoint = |signed count|; tangential contacts, levels through nodes and coincident crossings remain outside (recorded findings)',
               'floating-point rounding of crossing parameters and points (the float model is compared with the implementation bit for bit, not proved accurate)',
               'the refuted clauses (each a recorded finding with a formal witness): ray level with an on-curve node (C11_refuted), ray through a crossing of two edges '
               '(merged_crossing_refuted), isclose-vertical edge (vertical_recheck_refuted), ray longer than 5e7 (long_ray_refuted), isclose-degenerate ray (degenerate_ray_refuted)']
